@@ -14,7 +14,8 @@ Encodings (no spaces inside a token):
   values    rationals n/d, comma separated, "-" = empty
   A:n,c,t:<flat values>                      3-D array
   T:<labels|np>:<row;row;…>                  2-D table (np = numpy array, labels = names)
-  N:<names>:<col|col|…>   col = cell;cell;…  cell = S<values> | R<values> | P<value>
+  N:<names>:<col|col|…>[:<row labels>]   col = cell;cell;…  cell = S<values> | R<values> | P<value>
+                                         row labels: ints, comma separated (default 0..n-1)
   M:<inst>:<time>:<names>:<row;…>            row = i,t,v1,…,vc
   L:<inst>:<time>:<dim>:<row;…>              row = i,t,name,v
   hops: n3  3n:<names>:<S|R>  3m:<inst>:<time>:<names>  m3:<inst>:<time>  nm:<inst>:<time>
@@ -108,6 +109,18 @@ def parseRep? (s : String) : Option (Rep Name V) :=
       pure (Rep.long ⟨inst, time, dim, rs⟩)
   | _ => none
 
+/-- row labels of a nested start frame (4th field of an `N` token) -/
+def parseLabels? (s : String) : Option (Option (List Int)) :=
+  match s.splitOn ":" with
+  | ["N", _, _] => some none
+  | ["N", _, _, ls] => (parseIntList? ls).map some
+  | _ => some none
+
+def stripLabels (s : String) : String :=
+  match s.splitOn ":" with
+  | ["N", a, b, _] => ":".intercalate ["N", a, b]
+  | _ => s
+
 def parseHop? (s : String) : Option (Hop Name) :=
   match s.splitOn ":" with
   | ["n3"] => some .n3
@@ -164,25 +177,41 @@ def applyHop' (h : Hop Name) (r : Rep Name V) : Except Err (Rep Name V) :=
   | .a32, .tab2 ⟨none, rows⟩ => pure (.tab2 ⟨none, rows⟩)
   | h, r => applyHop nameOps reservedName h r
 
-def runPath : List (Hop Name) → Rep Name V → List String
+/-- first hop from a nested frame with row labels: only the converters to the multi-index frame /
+long table look at them -/
+def applyHopIx (labels : Option (List Int)) (h : Hop Name) (r : Rep Name V) : Except Err (Rep Name V) :=
+  match labels, h, r with
+  | some ls, .nm i t, .nested N => Rep.mi <$> fromNestedToMIIx ls N i t
+  | some ls, .nl i t d, .nested N => Rep.long <$> fromNestedToLongIx reservedName ls N i t d
+  | _, h, r => applyHop' h r
+
+def runPathFrom : List (Hop Name) → Rep Name V → List String
   | [], _ => []
   | h :: hs, r =>
     match applyHop' h r with
     | .error e => [showErr e]
-    | .ok r' => showRep r' :: runPath hs r'
+    | .ok r' => showRep r' :: runPathFrom hs r'
+
+def runPath (labels : Option (List Int)) : List (Hop Name) → Rep Name V → List String
+  | [], _ => []
+  | h :: hs, r =>
+    match applyHopIx labels h r with
+    | .error e => [showErr e]
+    | .ok r' => showRep r' :: runPathFrom hs r'
 
 def showBoolList (l : List Bool) : String := showList "," (l.map showBool)
 
 def handle (toks : List String) : String :=
   match toks with
   | "path" :: rep :: hops =>
-    match parseRep? rep, hops.mapM parseHop? with
-    | some r, some hs => showList " > " (runPath hs r)
-    | _, _ => "bad-op"
-  | "pathd" :: rep :: dhop :: hops =>
-    match parseRep? rep, parseHop? dhop, hops.mapM parseHop? with
-    | some r, some d, some hs => showList " > " (runPath hs r) ++ " || " ++ showList " > " (runPath [d] r)
+    match parseRep? (stripLabels rep), parseLabels? rep, hops.mapM parseHop? with
+    | some r, some ls, some hs => showList " > " (runPath ls hs r)
     | _, _, _ => "bad-op"
+  | "pathd" :: rep :: dhop :: hops =>
+    match parseRep? (stripLabels rep), parseLabels? rep, parseHop? dhop, hops.mapM parseHop? with
+    | some r, some ls, some d, some hs =>
+      showList " > " (runPath ls hs r) ++ " || " ++ showList " > " (runPath ls [d] r)
+    | _, _, _, _ => "bad-op"
   | ["pred", rep] =>
     match parseRep? rep with
     | some (.nested N) => s!"isn={showBool (isNestedDataframe N)} acn={showBoolList (areColumnsNested N)}"
